@@ -1,6 +1,7 @@
 import DiscretModel.Model.Proto
 import DiscretModel.Model.RoomBuild
 import DiscretModel.Model.LocalWrite
+import DiscretModel.Model.Ingest
 /-
 Model driver for engine `room` (local path). Same op lines as `harness/room` (see its `world.rs`):
   case id=<n> keys=<K> dmax=<D> [uids=desc]
@@ -32,10 +33,18 @@ structure World where
   handles : List (Nat × Ent)
   /-- per room, the ids of its admin entries in creation order -/
   adminIds : List (Nat × Nat)
+  /-- `peer=1`: a peer holding the same room definitions (site 1) is fed with what it would receive -/
+  peerOn : Bool
+  peerStopped : Bool
+  peerStarted : Bool
+  dfi : Ingest.Defects
+  peer : Ingest.Inst
 
 def World.blank : World :=
   { active := false, keys := 0, dmax := 0, df := Defects.asImplemented, sites := [], nextId := 0, rooms := [], groups := [],
-    fn := false, dfl := LocalWrite.Defects.asImplemented, db := LocalWrite.Db.empty, handles := [], adminIds := [] }
+    fn := false, dfl := LocalWrite.Defects.asImplemented, db := LocalWrite.Db.empty, handles := [], adminIds := [],
+    peerOn := false, peerStopped := false, peerStarted := false, dfi := Ingest.Defects.asImplemented,
+    peer := Ingest.Inst.empty }
 
 def identOfSite (s : Nat) : Nat := if s < 3 then s + 1 else 100 + s
 
@@ -242,6 +251,122 @@ def mkLeaves (w : World) (h : Nat) (parentNew : Bool) (dstE : Ent) :
       | true, some room, some rest => some ({ handle, isNew, entity := dstE, room, val := v } :: rest)
       | _, _, _ => none
 
+/-! #### the peer (C12): fed through the ingestion model -/
+
+def toNodeRow (r : Row) : Ingest.NodeRow :=
+  { id := r.id, room := r.room, ent := r.entity, cdate := r.cdate, mdate := r.mdate, key := r.author, sg := 0,
+    val := r.val.toNat }
+
+def toInNode (r : Row) : Ingest.InNode :=
+  { row := { toNodeRow r with sg := 1 }, annDate := r.mdate, annSg := 1, sigOk := true, conforms := true,
+    jsonAbsent := false, big := false }
+
+def toInEdge (e : EdgeRow) : Ingest.InEdge :=
+  { row := { src := e.src, srcEnt := (labelTypes e.label).1, label := e.label, dst := e.dest, cdate := e.cdate,
+             key := e.author }, sigOk := true }
+
+def toNodeDel (t : NodeTomb) : Ingest.NodeDel :=
+  { room := t.room, id := t.id, ent := t.entity, mdate := t.mdate, ddate := t.ddate, key := t.author }
+
+def toEdgeDel (t : EdgeTomb) : Ingest.EdgeDel :=
+  { room := t.room, src := t.src, srcEnt := (labelTypes t.label).1, dst := t.dest, label := t.label, cdate := t.cdate,
+    ddate := t.ddate, key := t.author }
+
+/-- a row is named by its handle once the handle is bound (an accepted creation), `?` otherwise -/
+def hname (hs : List (Nat × Ent)) (id : Nat) : String := if hs.any (·.1 = id) then toString id else "?"
+
+structure Feed where
+  hs : List (Nat × Ent)
+  s : Ingest.Inst
+  sent : Nat
+  accepted : Nat
+  refused : List String
+  taken : List String := []
+
+def feedEdgeDels (d : Ingest.Defects) : Feed → List EdgeTomb → Feed
+  | f, [] => f
+  | f, t :: rest =>
+    let r := toEdgeDel t
+    if Ingest.edgeDelAccepted d f.s r.room r then
+      feedEdgeDels d { f with s := Ingest.applyEdgeDel f.s r, sent := f.sent + 1, accepted := f.accepted + 1,
+                              taken := f.taken ++ [s!"de{hname f.hs t.src}>{t.label}>{hname f.hs t.dest}"] } rest
+    else
+      feedEdgeDels d { f with sent := f.sent + 1, refused := f.refused ++ [s!"de{hname f.hs t.src}>{t.label}>{hname f.hs t.dest}"] } rest
+
+def feedNodeDels (d : Ingest.Defects) : Feed → List NodeTomb → Feed
+  | f, [] => f
+  | f, t :: rest =>
+    let r := toNodeDel t
+    if Ingest.nodeDelAccepted d f.s r.room r then
+      feedNodeDels d { f with s := Ingest.applyNodeDel f.s r, sent := f.sent + 1, accepted := f.accepted + 1,
+                              taken := f.taken ++ [s!"dn{hname f.hs t.id}"] } rest
+    else feedNodeDels d { f with sent := f.sent + 1, refused := f.refused ++ [s!"dn{hname f.hs t.id}"] } rest
+
+/-- rooms of the rows, in order of first appearance -/
+def roomsOf (rows : List Row) : List Id := (rows.filterMap (·.room)).eraseDups
+
+def feedNodes (d : Ingest.Defects) (rows : List Row) : Feed → List Id → Feed
+  | f, [] => f
+  | f, room :: rest =>
+    let group := rows.filter (·.room = some room)
+    let ins := group.map toInNode
+    let requested := (Ingest.filterExisting f.s.nodes (Ingest.announce ins [])).map (·.1)
+    let r := Ingest.nodeStage d f.s room ins
+    let stale := (group.filter fun n => !requested.contains n.id).map fun n => s!"stale:n{hname f.hs n.id}"
+    let rej := ((group.filter fun n => requested.contains n.id).filter fun n => r.2.contains n.id).map fun n => s!"n{hname f.hs n.id}"
+    let acc := ((group.filter fun n => requested.contains n.id).filter fun n => !r.2.contains n.id).map fun n =>
+      s!"n{hname f.hs n.id}"
+    feedNodes d rows { f with s := r.1, sent := f.sent + group.length, accepted := f.accepted + acc.length,
+                              refused := f.refused ++ stale ++ rej, taken := f.taken ++ acc } rest
+
+def feedEdges (d : Ingest.Defects) (outNodes : List Row) (db : Db) : Feed → List EdgeRow → Feed
+  | f, [] => f
+  | f, e :: rest =>
+    let room : Option Id := match outNodes.find? (·.id = e.src) with
+      | some n => n.room
+      | none => (db.rows.find? (·.id = e.src)).bind (·.room)
+    match room with
+    | none => feedEdges d outNodes db f rest
+    | some room =>
+      let r := Ingest.edgeStage d f.s room [toInEdge e]
+      if r.2.isEmpty then
+        feedEdges d outNodes db { f with s := r.1, sent := f.sent + 1, accepted := f.accepted + 1,
+                                          taken := f.taken ++ [s!"e{hname f.hs e.src}>{e.label}>{hname f.hs e.dest}"] } rest
+      else
+        feedEdges d outNodes db
+          { f with s := r.1, sent := f.sent + 1, refused := f.refused ++ [s!"e{hname f.hs e.src}>{e.label}>{hname f.hs e.dest}"] } rest
+
+/-- the ` peer=…` suffix of a data operation and the new state of the peer -/
+def feedPeer (w : World) (out : Option LocalWrite.Outbox) : World × String :=
+  if !w.peerOn then (w, "")
+  else match out with
+    | none => (w, "")
+    | some o =>
+      if w.peerStopped then (w, " peer=stopped")
+      else if !w.peerStarted then (w, " peer=none")
+      else
+        let rooms := match w.site? 1 with | some s => s.mem | none => []
+        let f0 : Feed := { hs := w.handles, s := { w.peer with rooms }, sent := 0, accepted := 0, refused := [] }
+        let f1 := feedEdgeDels w.dfi f0 o.edgeDels
+        let f2 := feedNodeDels w.dfi f1 o.nodeDels
+        let f3 := feedNodes w.dfi o.nodes f2 (roomsOf o.nodes)
+        let f4 := feedEdges w.dfi o.nodes w.db f3 o.edges
+        let refused := sortStr f4.refused
+        let stop := (o.localOk && !refused.isEmpty) || (!o.localOk && f4.accepted > 0)
+        let w := { w with peer := f4.s, peerStopped := w.peerStopped || stop }
+        if f4.sent = 0 then (w, " peer=none")
+        else if refused.isEmpty then (w, " peer=accept")
+        else if f4.accepted = 0 then (w, " peer=refuse:" ++ joinWith "," refused)
+        else (w, " peer=partial:" ++ joinWith "," refused ++ ";ok:" ++ joinWith "," (sortStr f4.taken))
+
+/-- local result of a data operation followed by the peer's verdict on what it sends -/
+def finishP (w : World) (old : World) (r : Except LocalWrite.MErr Db) (out : Option LocalWrite.Outbox) :
+    World × String :=
+  -- the peer is fed while the local database is already updated (the references look up their source there)
+  let (w1, line) := finish w old r
+  let (w2, suffix) := feedPeer w1 out
+  (w2, line ++ suffix)
+
 end Fn
 
 open Fn in
@@ -258,14 +383,35 @@ def stepFn (w : World) (kind : String) (rest : List String) : World × String :=
         let w := w.setSite 0 st'
         let newGroups := (gidx.filter fun g => !w.groups.contains (m.rid, g)).map fun g => (m.rid, g)
         let newAdmins := (List.range m.admins.length).map fun i => (m.rid, w.nextId + i)
-        ({ w with nextId := w.nextId + m.size,
-                  rooms := if m.isNew then w.rooms ++ [m.rid] else w.rooms,
-                  groups := w.groups ++ newGroups, adminIds := w.adminIds ++ newAdmins }, "ok")
+        let w := { w with nextId := w.nextId + m.size,
+                          rooms := if m.isNew then w.rooms ++ [m.rid] else w.rooms,
+                          groups := w.groups ++ newGroups, adminIds := w.adminIds ++ newAdmins }
+        -- the peer imports the new definition
+        if !w.peerOn then (w, "ok")
+        else if w.peerStopped then (w, "ok peer:stopped")
+        else
+          let w := { w with peerStarted := true }
+          let (w, sa) := w.touch 0
+          match sa.export w.df m.rid with
+          | .error _ => (w, "ok peer:err:no-room")
+          | .ok cand =>
+            let (w, sb) := w.touch 1
+            match sb.importRoom w.df cand with
+            | .error e => ({ w with peerStopped := true }, "ok peer:" ++ errLine e)
+            | .ok sb' => (w.setSite 1 sb', "ok peer:ok")
   | "robs" =>
     match nat? rest "r" with
     | some r =>
       if !w.rooms.contains r then (w, "none")
       else match (w.site? 0).bind (·.getMem r) with
+        | some room => (w, matrix w room r)
+        | none => (w, "none")
+    | none => (w, "bad-op")
+  | "pobs" =>
+    match nat? rest "r" with
+    | some r =>
+      if !w.rooms.contains r then (w, "none")
+      else match (w.site? 1).bind (·.getMem r) with
         | some room => (w, matrix w room r)
         | none => (w, "none")
     | none => (w, "bad-op")
@@ -276,9 +422,10 @@ def stepFn (w : World) (kind : String) (rest : List String) : World × String :=
       else
         let m : LocalWrite.Mut := { handle := h, isNew := true, entity := e, room, val := some v, field := .none }
         let r := LocalWrite.mutate w.dfl (rooms w) w.db k d m
+        let o := LocalWrite.mutateOutbox w.dfl (rooms w) w.db k d m
         match r with
-        | .ok _ => finish { w with handles := w.handles ++ [(h, e)] } w r
-        | .error _ => finish w w r
+        | .ok _ => finishP { w with handles := w.handles ++ [(h, e)] } w r o
+        | .error _ => finishP w w r o
     | _, _, _, _, _, _ => (w, "bad-op")
   | "upd" =>
     match nat? rest "k", int? rest "d", nat? rest "h", optRoom w rest "room", optInt rest "v" with
@@ -287,7 +434,7 @@ def stepFn (w : World) (kind : String) (rest : List String) : World × String :=
       | none => (w, "bad-op")
       | some e =>
         let m : LocalWrite.Mut := { handle := h, isNew := false, entity := e, room, val := v, field := .none }
-        finish w w (LocalWrite.mutate w.dfl (rooms w) w.db k d m)
+        finishP w w (LocalWrite.mutate w.dfl (rooms w) w.db k d m) (LocalWrite.mutateOutbox w.dfl (rooms w) w.db k d m)
     | _, _, _, _, _ => (w, "bad-op")
   | "nest" =>
     match nat? rest "k", int? rest "d", nat? rest "h", nat? rest "f", (kv? rest "c").bind parseChildren,
@@ -308,12 +455,13 @@ def stepFn (w : World) (kind : String) (rest : List String) : World × String :=
             | _, _ => .none
           let m : LocalWrite.Mut := { handle := h, isNew := parentNew, entity := srcE, room, val := v, field }
           let r := LocalWrite.mutate w.dfl (rooms w) w.db k d m
+          let o := LocalWrite.mutateOutbox w.dfl (rooms w) w.db k d m
           match r with
           | .ok _ =>
             let newH := (if parentNew then [(h, srcE)] else []) ++
               (leaves.filter (·.isNew)).map fun l => (l.handle, dstE)
-            finish { w with handles := w.handles ++ newH } w r
-          | .error _ => finish w w r
+            finishP { w with handles := w.handles ++ newH } w r o
+          | .error _ => finishP w w r o
         | _, _ => (w, "bad-op")
     | _, _, _, _, _, _, _ => (w, "bad-op")
   | "null" =>
@@ -325,14 +473,16 @@ def stepFn (w : World) (kind : String) (rest : List String) : World × String :=
         if handleEnt w h ≠ some srcE then (w, "bad-op")
         else
           let m : LocalWrite.Mut := { handle := h, isNew := false, entity := srcE, room := none, val := none, field := .null f }
-          finish w w (LocalWrite.mutate w.dfl (rooms w) w.db k d m)
+          finishP w w (LocalWrite.mutate w.dfl (rooms w) w.db k d m) (LocalWrite.mutateOutbox w.dfl (rooms w) w.db k d m)
     | _, _, _, _ => (w, "bad-op")
   | "del" =>
     match nat? rest "k", int? rest "d", nat? rest "h" with
     | some k, some d, some h =>
       match handleEnt w h with
       | none => (w, "bad-op")
-      | some e => finish w w (LocalWrite.deleteNode w.dfl (rooms w) w.db k d h e)
+      | some e =>
+        finishP w w (LocalWrite.deleteNode w.dfl (rooms w) w.db k d h e)
+          (LocalWrite.deleteNodeOutbox w.dfl (rooms w) w.db k d h e)
     | _, _, _ => (w, "bad-op")
   | "delref" =>
     match nat? rest "k", int? rest "d", nat? rest "h", nat? rest "f", nat? rest "c" with
@@ -342,8 +492,11 @@ def stepFn (w : World) (kind : String) (rest : List String) : World × String :=
         let (srcE, dstE) := labelTypes f
         if handleEnt w h ≠ some srcE ∨ handleEnt w c ≠ some dstE then (w, "bad-op")
         -- the deletion grammar accepts `field[$id]` for array fields only
-        else if f ≠ 0 then (w, "err:parse " ++ dump w)
-        else finish w w (LocalWrite.deleteRef w.dfl (rooms w) w.db k d h srcE f c)
+        else if f ≠ 0 then
+          (w, "err:parse " ++ dump w ++ (feedPeer w (if w.peerOn then Option.none else Option.none)).2)
+        else
+          finishP w w (LocalWrite.deleteRef w.dfl (rooms w) w.db k d h srcE f c)
+            (LocalWrite.deleteRefOutbox w.dfl (rooms w) w.db k d h srcE f c)
     | _, _, _, _, _ => (w, "bad-op")
   | "deladm" =>
     match nat? rest "k", int? rest "d", nat? rest "r", nat? rest "i" with
@@ -374,9 +527,10 @@ def stepLine (w : World) (line : String) : World × String :=
       if k ≤ 12 ∧ d ≤ 64 then
         let rev := kv? rest "uids" = some "desc"
         ({ World.blank with active := true, keys := k, dmax := d, fn := kv? rest "mode" = some "fn",
+                            peerOn := kv? rest "peer" = some "1", dfi := w.dfi,
                             df := { w.df with uidOrderReversed := rev }, dfl := w.dfl }, s!"case {i}")
-      else ({ World.blank with df := w.df, dfl := w.dfl }, "bad-op")
-    | _, _, _ => ({ World.blank with df := w.df, dfl := w.dfl }, "bad-op")
+      else ({ World.blank with df := w.df, dfl := w.dfl, dfi := w.dfi }, "bad-op")
+    | _, _, _ => ({ World.blank with df := w.df, dfl := w.dfl, dfi := w.dfi }, "bad-op")
   | kind :: rest =>
     if !w.active then (w, "bad-op")
     else if w.fn then stepFn w kind rest
